@@ -723,6 +723,356 @@ def gauss(ck):
     ck.section("gauss", model_terms=len(terms))
 
 
+# ------------------------------------------------------------------ bgmm densities / divergences
+def finv(M):
+    """exact inverse of a small rational matrix (Gauss-Jordan over Fractions)"""
+    n = len(M)
+    A = [[F(v) for v in row] + [F(int(i == j)) for j in range(n)] for i, row in enumerate(M)]
+    for c in range(n):
+        piv = next(r for r in range(c, n) if A[r][c] != 0)
+        A[c], A[piv] = A[piv], A[c]
+        pv = A[c][c]
+        A[c] = [v / pv for v in A[c]]
+        for r in range(n):
+            if r != c and A[r][c] != 0:
+                f = A[r][c]
+                A[r] = [a - f * b for a, b in zip(A[r], A[c])]
+    return [row[n:] for row in A]
+
+
+def rand_spd_int(rng, dim, lo=1, hi=4):
+    L = np.tril(rng.integers(-2, 3, (dim, dim))).astype(float)
+    L[np.diag_indices(dim)] = rng.integers(lo, hi, dim)
+    return L @ L.T
+
+
+def ref_kl_gauss(m1, P1, m2, P2):
+    """KL(N(m1, inv P1) || N(m2, inv P2)) written with covariances"""
+    S1, S2 = np.linalg.inv(P1), np.linalg.inv(P2)
+    dm = m2 - m1
+    return 0.5 * (np.trace(np.linalg.solve(S2, S1)) + dm @ np.linalg.solve(S2, dm) - m1.size
+                  + np.linalg.slogdet(S2)[1] - np.linalg.slogdet(S1)[1])
+
+
+def ref_kl_wishart(n1, V1, n2, V2):
+    """KL(W(n1, V1) || W(n2, V2)), V = scale matrices"""
+    from scipy.special import multigammaln, psi
+    p = V1.shape[0]
+    M = np.linalg.solve(V2, V1)
+    mpsi = sum(psi((n1 - i) / 2) for i in range(p))
+    return (-(n2 / 2) * np.linalg.slogdet(M)[1] + (n1 / 2) * (np.trace(M) - p)
+            + multigammaln(n2 / 2, p) - multigammaln(n1 / 2, p) + (n1 - n2) / 2 * mpsi)
+
+
+def ref_kl_dirichlet(a, b):
+    from scipy.special import gammaln, psi
+    return (gammaln(a.sum()) - gammaln(a).sum() - gammaln(b.sum()) + gammaln(b).sum()
+            + ((a - b) * (psi(a) - psi(a.sum()))).sum())
+
+
+def quad(f, t):
+    return float(np.trapezoid(f, t))
+
+
+def bgmm_helpers(ck):
+    from nipy.algorithms.clustering import bgmm
+    import scipy.stats as st
+    from scipy.special import psi
+    rng = ck.rng("bgmm")
+    terms, meta = [], []
+    N = ck.n(40, 400)
+    for ci in range(N):
+        dim = 1 + ci % 4
+        # ---- dkl_gaussian: means AND precisions differ
+        while True:
+            m1 = rng.integers(-3, 4, dim).astype(float)
+            m2 = rng.integers(-3, 4, dim).astype(float)
+            P1, P2 = rand_spd_int(rng, dim), rand_spd_int(rng, dim)
+            if np.any(m1 != m2) and np.any(P1 != P2):
+                break
+        got = float(bgmm.dkl_gaussian(m1, P1, m2, P2))
+        ref = float(ref_kl_gauss(m1, P1, m2, P2))
+        ck.count(("dklg", m1.tobytes(), m2.tobytes(), P1.tobytes(), P2.tobytes()), bucket="dkl_gaussian:dim%d" % dim)
+        rep = {"m1": m1.tolist(), "P1": P1.tolist(), "m2": m2.tolist(), "P2": P2.tolist()}
+        if abs(got - ref) > 1e-9 * max(1.0, abs(ref)):
+            ck.fail("dkl_gaussian/not-the-kl-divergence",
+                    "dkl_gaussian = %r but KL(N(m1,inv P1)||N(m2,inv P2)) = %r (means and precisions both differ)" % (got, ref), rep)
+        if dim == 1:
+            s1 = 1 / math.sqrt(P1[0, 0])
+            t = np.linspace(m1[0] - 14 * s1, m1[0] + 14 * s1, 200001)
+            l1 = st.norm(m1[0], s1).logpdf(t)
+            l2 = st.norm(m2[0], 1 / math.sqrt(P2[0, 0])).logpdf(t)
+            qd = quad(np.exp(l1) * (l1 - l2), t)
+            if abs(got - qd) > 1e-6 * max(1.0, abs(qd)):
+                ck.fail("dkl_gaussian/not-the-kl-divergence", "dkl_gaussian = %r, quadrature of p1 log(p1/p2) = %r" % (got, qd), rep)
+        S1 = finv([[int(v) for v in r] for r in P1])
+        logr = float(np.log(max(bgmm.detsh(P1), 1e-15) / max(bgmm.detsh(P2), 1e-15)))
+        cm = lambda M: clist([cqcl([frac(v) for v in r]) for r in M])
+        terms.append("is_inverse_Qc %s %s %s && qrel %s (this (dkl_gaussian_Qc %s %s %s %s %s %s)) %s" % (
+            cnat(dim), cm(P1), clist([cqcl(r) for r in S1]), cq(F(1, 10 ** 10)), cqc(logr), cnat(dim),
+            cqcl(fl(m1)), clist([cqcl(r) for r in S1]), cqcl(fl(m2)), cm(P2), cq(got)))
+        meta.append(("dkl_gaussian", rep))
+        if ci < 1:
+            ck.sample({"dkl_gaussian": rep, "value": got, "reference": ref})
+        # ---- dkl_wishart: dof AND scale differ.  B = inverse scale (as VBGMM.evidence calls it)
+        V1, V2 = rand_spd_int(rng, dim) / 4.0, rand_spd_int(rng, dim) / 2.0 + np.eye(dim)
+        a1 = dim + float(rng.integers(1, 6)) / 2
+        a2 = a1 + float(rng.choice([-0.5, 1.0, 2.5]))
+        a2 = a2 if a2 > dim - 0.5 else a1 + 1.5
+        got = float(bgmm.dkl_wishart(a1, np.linalg.inv(V1), a2, np.linalg.inv(V2)))
+        ref = float(ref_kl_wishart(a1, V1, a2, V2))
+        ck.count(("dklw", a1, a2, V1.tobytes(), V2.tobytes()), bucket="dkl_wishart:dim%d" % dim)
+        repw = {"a1": a1, "B1": np.linalg.inv(V1).tolist(), "a2": a2, "B2": np.linalg.inv(V2).tolist()}
+        bad = abs(got - ref) > 1e-8 * max(1.0, abs(ref))
+        if dim == 1 and not bad:
+            t = np.linspace(1e-9, 60 * a1 * V1[0, 0] + 40, 400001)
+            l1 = st.gamma(a1 / 2, scale=2 * V1[0, 0]).logpdf(t)
+            l2 = st.gamma(a2 / 2, scale=2 * V2[0, 0]).logpdf(t)
+            qd = quad(np.exp(l1) * (l1 - l2), t)
+            bad = abs(got - qd) > 1e-4 * max(1.0, abs(qd))
+        if bad:
+            ck.fail("dkl_wishart/not-the-kl-divergence",
+                    "dkl_wishart(a1=%g, B1, a2=%g, B2) = %r but KL(W(a1, inv B1)||W(a2, inv B2)) = %r%s" % (
+                        a1, a2, got, ref, " (negative!)" if got < 0 else ""), repw)
+        # ---- dkl_dirichlet
+        kk = int(rng.integers(2, 6))
+        al = rng.integers(1, 9, kk).astype(float) / 2
+        be = np.roll(al, 1) + rng.integers(1, 4, kk) / 2.0
+        got = float(bgmm.dkl_dirichlet(al, be))
+        ref = float(ref_kl_dirichlet(al, be))
+        ck.count(("dkld", al.tobytes(), be.tobytes()), bucket="dkl_dirichlet")
+        if abs(got - ref) > 1e-9 * max(1.0, abs(ref)):
+            ck.fail("dkl_dirichlet/not-the-kl-divergence", "dkl_dirichlet = %r, closed form = %r" % (got, ref),
+                    {"w1": al.tolist(), "w2": be.tolist()})
+        if kk == 2 and al.min() >= 1 and be.min() >= 1:
+            t = np.linspace(1e-9, 1 - 1e-9, 400001)
+            l1, l2 = st.beta(al[0], al[1]).logpdf(t), st.beta(be[0], be[1]).logpdf(t)
+            qd = quad(np.exp(l1) * (l1 - l2), t)
+            if abs(got - qd) > 1e-4 * max(1.0, abs(qd)):
+                ck.fail("dkl_dirichlet/not-the-kl-divergence", "dkl_dirichlet = %r, quadrature = %r" % (got, qd),
+                        {"w1": al.tolist(), "w2": be.tolist()})
+    # ---- densities integrate to one in the one-dimensional cases (quadrature; TEST)
+    for p, mu in ((0.5, -1.0), (3.0, 2.0)):
+        t = np.linspace(mu - 12 / math.sqrt(p), mu + 12 / math.sqrt(p), 4001)
+        v = np.array([bgmm.normal_eval(np.array([mu]), np.array([[p]]), np.array([x])) for x in t])
+        ck.count(("int-normal", p, mu), bucket="integrates-to-one(test)")
+        if abs(quad(v, t) - 1) > 1e-6:
+            ck.fail("bgmm/normal_eval-mass", "normal_eval(mu=%g, P=%g) integrates to %r" % (mu, p, quad(v, t)), {"P": p, "mu": mu})
+    for n, V in ((3.0, 0.5), (6.5, 2.0)):
+        u = np.linspace(1e-6, math.sqrt(80 * n * V), 20001)       # x = u^2 (the density behaves like x^(n/2-1) at 0)
+        v = np.array([bgmm.wishart_eval(n, np.array([[V]]), np.array([[x * x]])) * 2 * x for x in u])
+        t = u
+        ck.count(("int-wishart", n, V), bucket="integrates-to-one(test)")
+        if abs(quad(v, t) - 1) > 1e-4:
+            ck.fail("bgmm/wishart_eval-mass", "wishart_eval(n=%g, V=%g) integrates to %r" % (n, V, quad(v, t)), {"n": n, "V": V})
+    for a in ((2.0, 3.0), (1.5, 4.0)):
+        t = np.linspace(1e-9, 1 - 1e-9, 20001)
+        v = np.array([bgmm.dirichlet_eval(np.array([x, 1 - x]), np.array(a)) for x in t])
+        ck.count(("int-dirichlet", a), bucket="integrates-to-one(test)")
+        if abs(quad(v, t) - 1) > 1e-4:
+            ck.fail("bgmm/dirichlet_eval-mass", "dirichlet_eval(alpha=%s) integrates to %r" % (a, quad(v, t)), {"alpha": a})
+    # ---- BGMM.probability_under_prior and VBGMM.evidence: what is built from the helpers
+    N = ck.n(16, 120)
+    for ci in range(N):
+        dim = 1 + ci % 3
+        k = 1 + (ci // 3) % 3
+        means = rng.integers(-3, 4, (k, dim)).astype(float)
+        prec = np.array([rand_spd_int(rng, dim) / 2.0 for _ in range(k)])
+        w = rng.integers(1, 6, k).astype(float)
+        shrink = rng.integers(1, 5, k).astype(float)
+        dof = dim + rng.integers(1, 6, k).astype(float)
+        pmeans = means + rng.integers(1, 3, (k, dim))
+        pw = rng.integers(1, 5, k).astype(float) / 2 + 0.5
+        pscale = np.array([rand_spd_int(rng, dim) / 4.0 + np.eye(dim) for _ in range(k)])
+        pdof = dof + rng.choice([-0.5, 1.0, 2.0], k)
+        pshrink = shrink + rng.integers(1, 3, k)
+        ck.count(("bgmm-obj", means.tobytes(), prec.tobytes(), pscale.tobytes()), bucket="bgmm-objects:dim%d:k%d" % (dim, k))
+        rep = {"k": k, "dim": dim, "means": means.tolist(), "precisions": prec.tolist(), "weights": w.tolist(),
+               "shrinkage": shrink.tolist(), "dof": dof.tolist(), "prior_means": pmeans.tolist(), "prior_weights": pw.tolist(),
+               "prior_scale": pscale.tolist(), "prior_dof": pdof.tolist(), "prior_shrinkage": pshrink.tolist()}
+        # BGMM: weights on the simplex for the Dirichlet density
+        wn = w / w.sum()
+        b = bgmm.BGMM(k, dim, means.copy(), prec.copy(), wn.copy(), shrink.copy(), dof.copy())
+        b.set_priors(pmeans.copy(), pw.copy(), pscale.copy(), pdof.copy(), pshrink.copy())
+        got = float(b.probability_under_prior())
+        ref = float(st.dirichlet(pw).pdf(wn)) if k > 1 else 1.0
+        for c in range(k):
+            ref *= float(st.multivariate_normal(pmeans[c], np.linalg.inv(prec[c] * pshrink[c])).pdf(means[c]))
+            ref *= float(st.wishart(df=pdof[c], scale=pscale[c]).pdf(prec[c]))
+        if k > 1 and abs(got - ref) > 1e-8 * abs(ref):
+            ck.fail("bgmm/probability_under_prior", "probability_under_prior = %r, Dirichlet x Normal x Wishart densities = %r" % (got, ref), rep)
+        # VBGMM free energy
+        v = bgmm.VBGMM(k, dim, means.copy(), prec.copy(), w.copy(), shrink.copy(), dof.copy())
+        v.set_priors(pmeans.copy(), pw.copy(), pscale.copy(), pdof.copy(), pshrink.copy())
+        x = rng.integers(-4, 5, (6, dim)).astype(float)
+        like = v._Estep(x)
+        like = (like.T / np.maximum(like.sum(1), 1e-15)).T
+        got = float(np.ravel(v.evidence(x))[0])
+        pop = like.sum(0)
+        Fr = 0.0
+        for c in range(k):
+            lav = psi(w[c]) - psi(w.sum()) - np.sum(like[:, c] * np.log(np.maximum(like[:, c], 1e-15))) / pop[c]
+            lav += -0.5 * dim * math.log(2 * math.pi) + 0.5 * np.linalg.slogdet(prec[c])[1] + 0.5 * dim * math.log(2)
+            lav += 0.5 * sum(psi((dof[c] - i) / 2) for i in range(dim)) - 0.5 * dim / shrink[c]
+            em = like[:, c] @ x / max(pop[c], 1e-15)
+            dx = x - em
+            Fr += lav * pop[c] - 0.5 * np.trace((dx.T * like[:, c]) @ dx @ (prec[c] * dof[c]))
+        kld = ref_kl_dirichlet(w, pw)
+        klw_true = sum(ref_kl_wishart(dof[c], prec[c], pdof[c], pscale[c]) for c in range(k))
+        klw_impl = sum(float(bgmm.dkl_wishart(dof[c], np.linalg.inv(prec[c]), pdof[c], np.linalg.inv(pscale[c]))) for c in range(k))
+        klg = sum(ref_kl_gauss(means[c], prec[c] * dof[c] * shrink[c], pmeans[c], prec[c] * dof[c] * pshrink[c]) for c in range(k))
+        ref = float(Fr - (kld + klw_true + klg))
+        tol = 1e-8 * max(1.0, abs(ref))
+        if abs(got - ref) > tol:
+            if abs(got - (ref + klw_true - klw_impl)) <= tol:
+                ck.fail("vbgmm-evidence/inherits-dkl_wishart",
+                        "VBGMM.evidence = %r, free energy with the true KL terms = %r; the difference is exactly the error of dkl_wishart" % (got, ref), dict(rep, x=x.tolist()))
+            else:
+                ck.fail("vbgmm-evidence/not-the-free-energy",
+                        "VBGMM.evidence = %r, free energy (average log-likelihood - KL(Dirichlet) - KL(Wishart) - KL(Gaussian)) = %r" % (got, ref), dict(rep, x=x.tolist()))
+    if ck.build is not None and ck.build.ok:
+        hdr = HDR + "From Coq Require Import Qcanon.\nClose Scope Qc_scope.\n"
+        res = ck.coq_bools(hdr, terms, shard=40, name="bgmm")
+        ck.cov["traces_validated_against_impl"] += len(res)
+        for ok, (kind, rep) in zip(res, meta):
+            if not ok:
+                ck.fail("bgmm-model-vs-impl/%s" % kind, "Coq model (%s) disagrees with the implementation" % kind, rep)
+    ck.section("bgmm_helpers", model_terms=len(terms))
+
+
+# ------------------------------------------------------------------ BrainT1Segmentation: convert / label maps
+MIX = {
+    "3k": np.eye(3),
+    "4k": np.array([[1., 0, 0], [0, 1, 0], [0, 1, 0], [0, 0, 1]]),
+    "5k": np.array([[1., 0, 0], [1, 0, 0], [0, 1, 0], [0, 1, 0], [0, 0, 1]]),
+    "mix6": np.array([[1., 0, 0], [1, 0, 0], [0, 1, 0], [0, 1, 0], [0, 1, 0], [0, 0, 1]]),
+    "pv5": np.array([[1., 0, 0], [.5, .5, 0], [0, 1, 0], [0, .5, .5], [0, 0, 1]]),
+}
+
+
+def label_oracles(ck, tag, ppm, label, mask, rep):
+    q = ppm[mask]
+    if not (finite(q) and q.min() >= 0 and np.max(np.abs(q.sum(-1) - 1)) < 1e-12):
+        ck.fail("brainseg/%s/ppm-not-on-simplex" % tag, "reported tissue posteriors of in-mask voxels are not probability vectors", rep)
+    if label[~mask].size and label[~mask].max() != 0:
+        ck.fail("brainseg/%s/label-outside-mask" % tag, "non-zero label outside the mask", rep)
+    exp = q.argmax(-1) + 1          # numpy argmax = first maximum
+    got = label[mask]
+    bad = np.nonzero(got != exp)[0]
+    if len(bad):
+        i = int(bad[0])
+        ck.fail("brainseg/%s/label-is-not-argmax-of-ppm" % tag,
+                "%d of %d in-mask labels differ from the (first) arg-max of the reported ppm, e.g. ppm = %s but label = %d" % (
+                    len(bad), got.size, q[i].tolist(), int(got[i])), dict(rep, voxel_index_in_mask=i, ppm_row=q[i].tolist(), label=int(got[i])))
+
+
+def brainseg(ck):
+    from nipy.algorithms.segmentation import BrainT1Segmentation
+    rng = ck.rng("brainseg")
+    terms, meta = [], []
+    cmix = lambda M: clist([cql(fl(r)) for r in M])
+    # ---- A. convert() on synthetic dyadic posteriors: exact, with joint-beat rows and exact ties
+    N = ck.n(30, 300)
+    n_joint = n_tie = 0
+    for ci in range(N):
+        name = list(MIX)[ci % len(MIX)]
+        M = MIX[name]
+        K = M.shape[0]
+        shape = (2, 3, 2)
+        mask = rng.random(shape) < 0.8
+        mask[0, 0, 0] = True
+        ppmK = np.zeros(shape + (K,))
+        for idx in np.ndindex(shape):
+            if not mask[idx]:
+                continue
+            r = rng.random()
+            if r < 0.3 and K > 3:      # two sub-classes of one tissue jointly beat the most probable class
+                cols = np.nonzero(M[:, 1] > 0)[0]
+                row = np.zeros(K)
+                row[cols[0]] = row[cols[1]] = 5
+                other = [c for c in range(K) if M[c, 1] == 0]
+                row[other[-1]] = 6
+            elif r < 0.5:              # exact tie between two tissues
+                row = np.zeros(K)
+                row[0] = 8
+                row[K - 1] = 8
+            else:
+                cuts = np.sort(rng.integers(0, 17, K - 1))
+                row = np.diff(np.concatenate([[0], cuts, [16]])).astype(float)
+            ppmK[idx] = row / row.sum() if row.sum() != 16 else row / 16.0
+        ppmK[mask] = np.round(ppmK[mask] * 16) / 16.0
+        ppmK[mask, 0] += 1.0 - ppmK[mask].sum(-1)
+        obj = object.__new__(BrainT1Segmentation)
+        obj.ppm, obj.mixmat, obj.mask = ppmK.copy(), M.copy(), mask
+        obj.convert()
+        ck.count(("convert", name, ppmK.tobytes(), mask.tobytes()), bucket="convert-synthetic:%s" % name)
+        rep = {"model": name, "mixmat": M.tolist(), "ppm_classes": ppmK.tolist(), "mask": mask.tolist()}
+        label_oracles(ck, "convert", obj.ppm, obj.label, mask, rep)
+        if not np.array_equal(obj.ppm, ppmK @ M):
+            ck.fail("brainseg/convert/ppm-is-not-the-mixing-product", "converted ppm differs from ppm . mixmat", rep)
+        for idx in np.ndindex(shape):
+            if not mask[idx]:
+                continue
+            row, out, lab = ppmK[idx], obj.ppm[idx], int(obj.label[idx])
+            n_joint += int(np.argmax(M[int(np.argmax(row))]) != int(np.argmax(out)))
+            n_tie += int(np.sum(out == out.max()) > 1)
+            terms.append("let c := convert_voxel 3 %s %s in qlist_eqb (fst c) %s && Nat.eqb (snd c) %s" % (
+                cql(fl(row)), cmix(M), cql(fl(out)), cnat(lab)))
+            meta.append(("convert-voxel", dict(rep, voxel=list(idx))))
+    # ---- B. the whole pipeline on T1-like data with partial-volume voxels
+    N = ck.n(10, 60)
+    n_joint_pipe = 0
+    for ci in range(N):
+        shape = (int(rng.integers(7, 11)), int(rng.integers(6, 10)), int(rng.integers(5, 9)))
+        modes = np.array([800., 1650., 2150.])
+        data = modes[rng.integers(0, 3, size=shape)] + 180. * rng.normal(size=shape)
+        pv = rng.random(shape) < 0.4
+        data[pv] = rng.uniform(600., 2400., size=int(pv.sum()))
+        data = np.abs(data) + 1.0
+        mask = np.ones(shape, dtype=bool)
+        mask[:1] = False
+        mask[3, 3, :] = False
+        name = ["3k", "4k", "5k", "mix6", "pv5"][ci % 5]
+        model = name if name in ("3k", "4k", "5k") else MIX[name]
+        beta = float(rng.choice([0.0, 0.2, 0.5]))
+        ngb = int(rng.choice([6, 26]))
+        kw = dict(mask=mask, model=model, niters=3, beta=beta, ngb_size=ngb)
+        S = BrainT1Segmentation(data, **kw)
+        S0 = BrainT1Segmentation(data, convert=False, **kw)
+        ck.count(("pipe", name, beta, ngb, data.tobytes()), bucket="brain-pipeline:%s" % name)
+        rep = {"model": name, "beta": beta, "ngb_size": ngb, "niters": 3, "shape": shape, "seed_stream": "brainseg", "case": ci,
+               "data": data.tolist(), "mask_excludes": "x=0 slab and (3,3,:)"}
+        label_oracles(ck, "pipeline", S.ppm, S.label, mask, rep)
+        if S.ppm.shape != shape + (3,):
+            ck.fail("brainseg/pipeline/ppm-shape", "ppm has shape %s" % (S.ppm.shape,), rep)
+            continue
+        M = S.mixmat
+        qK, q, lab = S0.ppm[mask], S.ppm[mask], S.label[mask]
+        if not np.allclose(qK @ M, q, rtol=0, atol=1e-15):
+            ck.fail("brainseg/pipeline/ppm-is-not-the-mixing-product", "reported ppm differs from (class posteriors) . mixmat", rep)
+        # un-converted run: label = argmax over classes
+        label_oracles(ck, "pipeline-unconverted", S0.ppm, S0.label, mask, rep)
+        joint = np.nonzero(np.argmax(M, 1)[qK.argmax(1)] != q.argmax(1))[0]
+        n_joint_pipe += len(joint)
+        pick = list(joint[:15]) + list(rng.integers(0, len(q), 10))
+        for i in pick:
+            i = int(i)
+            terms.append("qlist_close %s (mix_row 3 %s %s) %s && Nat.eqb (map_from_ppm_row %s) %s" % (
+                cq(F(1, 10 ** 15)), cql(fl(qK[i])), cmix(M), cql(fl(q[i])), cql(fl(q[i])), cnat(int(lab[i]))))
+            meta.append(("pipeline-voxel", dict(rep, voxel_index_in_mask=i, class_posterior=qK[i].tolist())))
+    if n_joint == 0 or n_joint_pipe == 0:
+        ck.fail("brainseg/generator-has-no-joint-beat-voxels", "no voxel where merged classes jointly beat the most probable class was generated "
+                "(synthetic %d, pipeline %d)" % (n_joint, n_joint_pipe), {"kind": "coverage"}, found_input=False)
+    if ck.build is not None and ck.build.ok:
+        res = ck.coq_bools(HDR, terms, shard=150, name="brainseg")
+        ck.cov["traces_validated_against_impl"] += len(res)
+        for ok, (kind, rep) in zip(res, meta):
+            if not ok:
+                ck.fail("brainseg-model-vs-impl/%s" % kind, "Coq model of convert (mixing product, then first arg-max) disagrees with the implementation", rep)
+    ck.section("brainseg", model_terms=len(terms), synthetic_joint_beat_voxels=int(n_joint), synthetic_tie_voxels=int(n_tie),
+               pipeline_joint_beat_voxels=int(n_joint_pipe))
+
+
 def run(ck):
     ck.cov["rule"] = (
         "mrf: random grids 1..3^3 (thorough: up to 4), K 1..3, masks, point orders, U in {Potts, symmetric int, asymmetric int}, "
@@ -739,7 +1089,7 @@ def run(ck):
     ck.coq_build()
     ck.overlay()
     import time
-    for fn in (mrf, posteriors, gauss):
+    for fn in (mrf, posteriors, gauss, bgmm_helpers, brainseg):
         t0 = time.time()
         fn(ck)
         ck.section(fn.__name__, wall_s=round(time.time() - t0, 1))
